@@ -5,7 +5,10 @@
    exception class.  Only what the property promises is a verdict: an error (of the documented class where
    one is documented) for an inconsistent call, none for a consistent one, anything outside the property's
    domain.  The state after a refusal, the order edges of accepted wires and the builders' private
-   bookkeeping are diagnostics of the harness, not part of a case. *)
+   bookkeeping are diagnostics of the harness, not part of a case.
+   Builders are also used as context managers: a statement of a conditional session is a body of calls (not
+   caught one by one) inside `with` blocks, and any other call may sit inside `with` blocks of its enclosing
+   builders (KIn); the observation is the exception that reached the caller of the outermost block. *)
 From Coq Require Import ZArith NArith List Bool Arith.
 Import ListNotations.
 From HV Require Export lib.Harness model.Tracked model.BuilderErr spec.BuilderErrS.
@@ -19,13 +22,17 @@ Inductive oexc := XNone | XErr (e : eclass) | XOther.
 Definition rowN := row N.
 Inductive case :=
 | KWire (blk : option (nat * nat)) (pt : ptable) (src tgt : nat) (k : pkind) (obs : oexc)
-| KCond (n : nat) (ops : list (cond_op N)) (obs : list oexc)
+| KCond (n : nat) (ss : list (cond_stmt N)) (obs : list oexc)   (* per statement: what reached the caller *)
 | KExit (outs : list rowN) (obs : list oexc)
 | KFnOut (declared : option rowN) (given : rowN) (obs : oexc)
 | KCall (k : pkind) (np : nat) (inst : bool) (nt : nat) (obs : oexc)
 | KPlainAdd (args : list arg) (obs : oexc)
 | KTrackedIdx (tr : tracked) (i : Z) (obs : oexc)
-| KSerialise (nodes : list (opfields N)) (obs : oexc).
+| KSerialise (nodes : list (opfields N)) (obs : oexc)
+(* the call(s) of c made inside `depth` nested `with` blocks of builders whose __exit__ has nothing to check
+   (DfBase: Dfg / Function / Case / Block / TailLoop, Cfg, a Conditional whose cases were all requested);
+   obs inside c = what reached the caller of the outermost block *)
+| KIn (depth : nat) (c : case).
 
 Definition eclass_eqb (a b : eclass) : bool :=
   match a, b with
@@ -115,21 +122,52 @@ Definition wire_demand (blk : option (nat * nat)) (pt : ptable) (src tgt : nat) 
 (* a conditional session, written on the history of accepted calls:
    add_case i is consistent iff 0 <= i < n and no accepted add_case i came before; set_outputs r (at most one
    per case) must agree with the first accepted set_outputs; exit iff all n cases were accepted *)
-Fixpoint cond_spec (n : nat) (added : list Z) (outs : option rowN) (ops : list (cond_op N)) : list demand :=
-  match ops with
-  | [] => []
-  | OAddCase i :: r =>
+Definition all_added (n : nat) (added : list Z) : bool := forallb (fun k => mem Z.eqb (Z.of_nat k) added) (seq 0 n).
+Definition op_spec (n : nat) (added : list Z) (outs : option rowN) (o : cond_op N) : demand * list Z * option rowN :=
+  match o with
+  | OAddCase i =>
       if ((0 <=? i) && (i <? Z.of_nat n))%Z && negb (mem Z.eqb i added)
-      then DAccept :: cond_spec n (i :: added) outs r
-      else DRefuse [ConditionalError] :: cond_spec n added outs r
-  | OSetOutputs x :: r =>
+      then (DAccept, i :: added, outs) else (DRefuse [ConditionalError], added, outs)
+  | OSetOutputs x =>
       match outs with
-      | None => DAccept :: cond_spec n added (Some x) r
-      | Some y => rows_demand y x [ConditionalError] :: cond_spec n added outs r
+      | None => (DAccept, added, Some x)
+      | Some y => (rows_demand y x [ConditionalError], added, outs)
       end
-  | OExit :: r =>
-      (if forallb (fun k => mem Z.eqb (Z.of_nat k) added) (seq 0 n) then DAccept else DRefuse [ConditionalError])
-      :: cond_spec n added outs r
+  | OExit => (if all_added n added then DAccept else DRefuse [ConditionalError], added, outs)
+  end.
+(* the body of a `with` block: calls in sequence, not caught - the first inconsistent call ends it with its error
+   (what follows never runs).  Result: demand on the body as a whole, the history when it is left, and `lost`:
+   a call outside the property (any outcome) was followed by more calls, so whether those ran is unknown *)
+Fixpoint body_spec (n : nat) (added : list Z) (outs : option rowN) (os : list (cond_op N))
+  : demand * list Z * option rowN * bool :=
+  match os with
+  | [] => (DAccept, added, outs, false)
+  | o :: r => let '(d, a', o') := op_spec n added outs o in
+              match d with
+              | DAccept => body_spec n a' o' r
+              | DFree => (DFree, a', o', match r with [] => false | _ => true end)
+              | _ => (d, added, outs, false)
+              end
+  end.
+Definition is_cxcond (k : ctxk) : bool := match k with CxCond => true | CxPlain => false end.
+(* the contexts around the body: an error raised inside must reach the caller (no context may swallow it); a
+   Conditional context left with unbuilt cases raises ConditionalError itself (either error may be the one that
+   arrives); contexts of other builders demand nothing *)
+Definition stmt_demand (n : nat) (ctxs : list ctxk) (d : demand) (added : list Z) : demand :=
+  if existsb is_cxcond ctxs && negb (all_added n added) then
+    match d with
+    | DAccept => DRefuse [ConditionalError]
+    | DRefuse cl => DRefuse (ConditionalError :: cl)
+    | _ => DRefuseAny
+    end
+  else d.
+Fixpoint cond_spec (n : nat) (added : list Z) (outs : option rowN) (lost : bool) (ss : list (cond_stmt N)) : list demand :=
+  match ss with
+  | [] => []
+  | s :: r =>
+      if lost then DFree :: cond_spec n added outs true r else
+      let '(d, a', o', l) := body_spec n added outs (s_body s) in
+      stmt_demand n (s_ctx s) d a' :: cond_spec n a' o' l r
   end.
 Fixpoint exit_spec (first : option rowN) (outs : list rowN) : list demand :=
   match outs with
@@ -174,7 +212,7 @@ Fixpoint agree_list (ds : list demand) (ms : list (option eclass)) (os : list oe
   end.
 
 (* ---- corr: the model's decision == the observed one (inside the property's domain) ---- *)
-Definition corr (c : case) : bool :=
+Fixpoint corr (c : case) : bool :=
   match c with
   | KWire blk pt src tgt k obs =>
       is_free (wire_demand blk pt src tgt k) ||
@@ -182,7 +220,7 @@ Definition corr (c : case) : bool :=
       | None => is_none obs
       | Some e => if kvalue_b k then agree (Some e) obs else is_err obs   (* two inconsistencies: either error *)
       end
-  | KCond n ops obs => agree_list (cond_spec n [] None ops) (fst (cond_run N sem_eqb (cond0 n) ops)) obs
+  | KCond n ss obs => agree_list (cond_spec n [] None false ss) (fst (stmt_run N sem_eqb (cond0 n) ss)) obs
   | KExit outs obs => agree_list (exit_spec None outs) (fst (exit_run N sem_eqb None outs)) obs
   | KFnOut d g obs => is_free (fnout_demand d g) || agree (of_res (fn_set_outputs N sem_eqb d g)) obs
   | KCall k np inst nt obs =>
@@ -194,17 +232,23 @@ Definition corr (c : case) : bool :=
   | KPlainAdd args obs => agree (of_res (plain_add_decision args)) obs
   | KTrackedIdx tr i obs => agree (of_res (tracked_index_decision tr i)) obs
   | KSerialise nodes obs => agree (of_res (serialise N nodes)) obs
+  (* the model's `with` of builders whose __exit__ returns None hands on what the body did
+     (with_plain depth fl = fl, C13_plain_contexts_transparent): the decision is the call's own *)
+  | KIn _ c' => corr c'
   end.
 
 (* ---- mon: the specification's demand on the observed behaviour ---- *)
-Definition mon (c : case) : bool :=
+Fixpoint mon (c : case) : bool :=
   match c with
   | KWire blk pt src tgt k obs => parent_first_b pt && meets (wire_demand blk pt src tgt k) obs
-  | KCond n ops obs => all2 meets (cond_spec n [] None ops) obs
+  | KCond n ss obs => all2 meets (cond_spec n [] None false ss) obs
   | KExit outs obs => all2 meets (exit_spec None outs) obs
   | KFnOut d g obs => meets (fnout_demand d g) obs
   | KCall k np inst nt obs => meets (call_demand k np inst nt) obs
   | KPlainAdd args obs => meets (plainadd_demand args) obs
   | KTrackedIdx tr i obs => meets (tidx_demand tr i) obs
   | KSerialise nodes obs => meets (serialise_demand nodes) obs
+  (* an error raised inside `with` blocks must reach the caller, a consistent call stays accepted: the demand
+     on what leaves the outermost block is the demand on the call *)
+  | KIn _ c' => mon c'
   end.
